@@ -412,6 +412,27 @@ def run(prop, tier, seed):
                 sid = "%s-%s-free%d" % (prop, cname, j)
                 scenarios.append(free_scenario(behs[j:j + 2], sid, conc))
                 meta[sid] = None
+        if prop == "C04":
+            # KEYS SIDE BY SIDE: rounds of proposals (and attestations) for DIFFERENT keys sent at the same moment, each round one step
+            # higher, every third round repeating the last step with another root.  One-at-a-time processing per key means each key's
+            # answers are those of its own sequence whatever its neighbours do at the same time (a buffer, a cache or a record shared
+            # between the requests of different keys shows as an answer no order explains).
+            for gi in range(3 if tier == "quick" else 30):
+                ops = []
+                # (values stay inside the abstract domain of the trace specification: 1, 2, 2 again, 3, 3 again, then 1 - long refused)
+                for rnd_, (slot, root) in enumerate(((1, "A"), (2, "A"), (2, "B"), (3, "A"), (3, "B"), (1, "C"))):
+                    grp = []
+                    for k_ in range(3):
+                        rid = "s%dr%dk%d" % (gi, rnd_, k_)
+                        if (k_ + gi) % 3 == 2:
+                            grp.append(dict(id=rid, kind="att", ents=[dict(k=k_, s=slot - 1, t=slot, root=root)]))
+                        else:
+                            grp.append(dict(id=rid, kind="prop", ents=[dict(k=k_, slot=slot, root=root)]))
+                    ops.append(dict(id="round%d" % rnd_, kind="par", gate=False, ops=grp))
+                for cname_, conc_ in concs[:2]:
+                    sid = "%s-%s-sidebyside%d" % (prop, cname_, gi)
+                    scenarios.append(dict(id=sid, world=dict(nkeys=3), conc=conc_, ops=ops))
+                    meta[sid] = None
         if prop == "C15":
             # ACCOUNTS ARRIVING WHILE BATCHES RUN: four accounts created at run time (they live in the fetcher's run-time tables), then
             # twelve sequential clients send generic batches BY PUBLIC KEY over rotated and reversed selections of the two start-up and
